@@ -21,6 +21,8 @@ ToSetT(s) == { s[i] : i \in 1..Len(s) }
 UninitializedRejected == Rec => (Uninitialized(C.src) <=> C.uninitErr)
 (* without lookahead flags every grammar of the universe is well-formed once its parameters are initialised *)
 NoSpuriousError == (Rec /\ ~Uninitialized(C.src) /\ Len(C.src.la) = 0) => C.err = ""
+(* a grammar is rejected exactly when a parameter stays uninitialised or a lookahead flag is misused *)
+RejectedExactly == (Rec /\ ~C.crash) => ((C.err # "") <=> (Uninitialized(C.src) \/ LookaheadMisuse(C.src, {0})))
 NoCrash == Rec => ~C.crash
 InstancesPreserved ==
   (Rec /\ C.err = "") =>
